@@ -1,6 +1,8 @@
 import BSModel.Proofs.Entities
 import BSModel.Proofs.Html5
+import BSModel.Proofs.Html5Fix
 import BSModel.Gen.Entities
+import BSModel.Gen.EntitiesFormatters
 /-! # C09 — entity substitution and attribute quoting are reversible for every string
 
 `T : Tbl` is the data of `EntitySubstitution` (the alternatives parsed back from the two compiled patterns, the three
@@ -20,29 +22,29 @@ open BS.Entities BS.Reader
     `CHARACTER_TO_HTML_ENTITY`; the name is `[A-Za-z][A-Za-z0-9]*`, at most 31 long; `HTML_ENTITY_TO_CHARACTER[name]` and
     `html5[name;]` are exactly the matched text; alternatives are mutually exclusive (look-ahead classes cover every
     longer alternative); `&` (ampersand pattern), `<`, `>` are always caught; `html5["quot;"] = '"'`. -/
-theorem tblOK_live : TblOK BS.Gen.htmlTable = true := by decide +kernel
+theorem tblOK_live : TblOK BS.Gen.C09.htmlTable = true := by decide +kernel
 
 /-- `CHARACTER_TO_XML_ENTITY` has `&`, `<`, `>` with names both readers map back. -/
-theorem xmlOK_live : XmlOK BS.Gen.xmlTable BS.Gen.htmlTable = true := by decide +kernel
+theorem xmlOK_live : XmlOK BS.Gen.C09.xmlTable BS.Gen.C09.htmlTable = true := by decide +kernel
 
 /-- The two generated patterns consist only of the particle shapes the model knows (re-assembling the parsed particles
     gives the pattern text back), and the three hand-written patterns have the text and flags the model mirrors. -/
-theorem patterns_as_modelled : BS.Gen.patternShapeOk = true ∧ BS.Gen.fixedPatternsAsModelled = true := by decide
+theorem patterns_as_modelled : BS.Gen.C09.patternShapeOk = true ∧ BS.Gen.C09.fixedPatternsAsModelled = true := by decide
 
 /-- The registries name the functions the property is about: `minimal` ↦ substitute_xml, `html` ↦ substitute_html,
     `html5` ↦ substitute_html5, `None` ↦ no substitution. -/
 theorem registry_live :
-    (findFormatter BS.Gen.htmlRegistry true (ofS "minimal")).map (·.fn) = some 1 ∧
-    (findFormatter BS.Gen.htmlRegistry true (ofS "html")).map (·.fn) = some 2 ∧
-    (findFormatter BS.Gen.htmlRegistry true (ofS "html5")).map (·.fn) = some 3 ∧
-    (findFormatter BS.Gen.htmlRegistry false []).map (·.fn) = some 0 ∧
-    (findFormatter BS.Gen.xmlRegistry true (ofS "minimal")).map (·.fn) = some 1 ∧
-    (findFormatter BS.Gen.xmlRegistry true (ofS "html")).map (·.fn) = some 2 ∧
-    (findFormatter BS.Gen.xmlRegistry false []).map (·.fn) = some 0 := by decide
+    (findFormatter BS.Gen.C09.htmlRegistry true (ofS "minimal")).map (·.fn) = some 1 ∧
+    (findFormatter BS.Gen.C09.htmlRegistry true (ofS "html")).map (·.fn) = some 2 ∧
+    (findFormatter BS.Gen.C09.htmlRegistry true (ofS "html5")).map (·.fn) = some 3 ∧
+    (findFormatter BS.Gen.C09.htmlRegistry false []).map (·.fn) = some 0 ∧
+    (findFormatter BS.Gen.C09.xmlRegistry true (ofS "minimal")).map (·.fn) = some 1 ∧
+    (findFormatter BS.Gen.C09.xmlRegistry true (ofS "html")).map (·.fn) = some 2 ∧
+    (findFormatter BS.Gen.C09.xmlRegistry false []).map (·.fn) = some 0 := by decide
 
-example : substHtml BS.Gen.htmlTable [60, 233, 38, 8807, 824] =
+example : substHtml BS.Gen.C09.htmlTable [60, 233, 38, 8807, 824] =
     ofS "&lt;&eacute;&amp;&ngeqq;" := by decide +kernel
-example : substXml BS.Gen.xmlTable (ofS "a<b>&c") = ofS "a&lt;b&gt;&amp;c" := by decide +kernel
+example : substXml BS.Gen.C09.xmlTable (ofS "a<b>&c") = ofS "a&lt;b&gt;&amp;c" := by decide +kernel
 
 /-! ## substitute_xml ('minimal') -/
 
@@ -66,7 +68,7 @@ theorem xml_text_roundtrip (X : List (Nat × PStr)) (T : Tbl) (h : XmlOK X T = t
     readText T late 0 (substXml X s) = s :=
   html_text_roundtrip_gen T late xmlParticles (xmlRep X) (repOK_xml h) xml_covers.1 s
 
-example : readText BS.Gen.htmlTable false 0 (substXml BS.Gen.xmlTable (ofS "&lt;<&#60;")) = ofS "&lt;<&#60;" :=
+example : readText BS.Gen.C09.htmlTable false 0 (substXml BS.Gen.C09.xmlTable (ofS "&lt;<&#60;")) = ofS "&lt;<&#60;" :=
   xml_text_roundtrip _ _ xmlOK_live _ _
 
 /-! ## substitute_html ('html') -/
@@ -92,7 +94,7 @@ theorem html_text_roundtrip (T : Tbl) (h : TblOK T = true) (late : Bool) (s : PS
   let ⟨h1, _, _, _, h38⟩ := tblOK_amp h
   html_text_roundtrip_gen T late T.particlesAmp (htmlRep T) h1 h38 s
 
-example : readText BS.Gen.htmlTable false 0 (substHtml BS.Gen.htmlTable [8807, 824, 38, 108, 116, 59, 8807]) =
+example : readText BS.Gen.C09.htmlTable false 0 (substHtml BS.Gen.C09.htmlTable [8807, 824, 38, 108, 116, 59, 8807]) =
     [8807, 824, 38, 108, 116, 59, 8807] := html_text_roundtrip _ tblOK_live _ _
 
 /-! ## quoted_attribute_value -/
@@ -136,7 +138,7 @@ theorem html_attr_roundtrip (T : Tbl) (h : TblOK T = true) (s : PStr) :
   unfold quoteBody substHtml substHtmlWith
   split <;> simp [this.1, this.2]
 
-example : readAttr BS.Gen.htmlTable (quoteAttr (substHtml BS.Gen.htmlTable (ofS "a\"b'<c&quot;"))) =
+example : readAttr BS.Gen.C09.htmlTable (quoteAttr (substHtml BS.Gen.C09.htmlTable (ofS "a\"b'<c&quot;"))) =
     some (ofS "a\"b'<c&quot;") := html_attr_roundtrip _ tblOK_live _
 
 /-! ## the order of the alternation does not matter -/
@@ -156,25 +158,24 @@ theorem order_irrelevant_html5 (T : Tbl) (h : TblOK T = true) (ps' : List Partic
     (s : PStr) : substHtml5With T ps' s = substHtml5 T s :=
   reSub_congr (firstMatch_of_same_members (tblOK_plain h).2.1 (fun _ => hp.mem_iff)) _ 0 _
 
-example : substHtmlWith BS.Gen.htmlTable BS.Gen.htmlTable.particlesAmp.reverse [8807, 824] =
-    substHtml BS.Gen.htmlTable [8807, 824] :=
+example : substHtmlWith BS.Gen.C09.htmlTable BS.Gen.C09.htmlTable.particlesAmp.reverse [8807, 824] =
+    substHtml BS.Gen.C09.htmlTable [8807, 824] :=
   order_irrelevant _ tblOK_live _ (List.reverse_perm _) _
 
 /-! ## substitute_html5 ('html5')
 
-The full statement `∀ s, readText T late 0 (substHtml5 T s) = s` (and its attribute twin) is **false** of the code:
-`substitute_html5` escapes an `&` only when `(#\d+|#x[0-9a-fA-F]+|\w+);` follows, and a parser also resolves
-references without the `;`. The four refutations below are decided on the live tables and re-observed on the
-implementation by the check (known findings `C09-html5-*`). Proved: no raw brackets for all strings; the text round
-trip for every string satisfying the decidable `noBareRefStart` — each `&` is either escaped by the first pass or
-followed by something that is neither an ASCII letter nor `#` (so no parser can take it for the start of a
-reference); the attribute round trip for strings without `&`. Not proved (left to the correspondence, exhaustive on
-the alphabet strings): the exact domain — a bare `&` followed by an *unknown* name without `;` (`&foo bar`) also
-round-trips as text — and the attribute reader under `noBareRefStart`. -/
+`substHtml5` is the **repaired** function (fixes/C09-html5-ampersand.diff): its first pass visits every `&` and escapes it
+exactly when a parser would read it as the start of a character reference — `#` follows; or `(#\d+|#x[0-9a-fA-F]+|\w+);`;
+or a name `[a-zA-Z][-.a-zA-Z0-9]*` that is followed by `;`, or is a known entity name, or begins with one of the names
+that need no semicolon. For it the clause "the 'html5' substitution never changes the string a parser reads back" is
+proved at full strength, for text and for attribute values. `substHtml5Old` is 4.13.0 as shipped; the clause is false of
+it (four decided refutations), and `html5_old_roundtrip_partial` says how far it does hold. -/
 
-/-- The live tables satisfy what the html5 round trip needs beyond `TblOK`: `&` is neither `\w` nor `\d`, no alternative
-    contains `&` or starts with a code point of `&amp;`, the reader knows `amp`. -/
-theorem html5OK_live : Html5OK BS.Gen.htmlTable = true := by decide +kernel
+/-- The live tables satisfy what the repaired html5 round trip needs beyond `TblOK`: no alternative contains `&` or starts
+    with `&`, `;`, `"` or a code point that can occur in an entity name; both readers know `amp` and `quot`; every
+    alternative of `SEMICOLON_OPTIONAL_ENTITY_RE` is a well-formed name; and **every** key of `html.entities.html5`
+    (checked over the whole dictionary) is `name;` for a well-formed name or one of those alternatives. -/
+theorem html5FixOK_live : Html5FixOK BS.Gen.C09.htmlTable = true := by decide +kernel
 
 /-- No raw `<` or `>` in the output of `substitute_html5`. -/
 theorem html5_no_raw_brackets (T : Tbl) (h : TblOK T = true) (s : PStr) :
@@ -182,64 +183,157 @@ theorem html5_no_raw_brackets (T : Tbl) (h : TblOK T = true) (s : PStr) :
   let ⟨h1, _, h60, h62⟩ := tblOK_plain h
   html_no_raw_gen T T.particles (htmlRep T) h1 h60 h62 _
 
-/-- `substitute_html5` round-trips as text for every string whose ampersands are either escaped by its first pass or
-    followed by something other than an ASCII letter or `#`. -/
-theorem html5_roundtrip_partial (T : Tbl) (h : TblOK T = true) (h5 : Html5OK T = true) (late : Bool) (s : PStr)
-    (hs : noBareRefStart T s = true) : readText T late 0 (substHtml5 T s) = s :=
+/-- **Every** string written with `substitute_html5` is read back, as element text, as the original. -/
+theorem html5_text_roundtrip (T : Tbl) (h : TblOK T = true) (h5 : Html5FixOK T = true) (late : Bool) (s : PStr) :
+    readText T late 0 (substHtml5 T s) = s :=
+  let ⟨hk, _, hamp, _⟩ := html5FixOK_spec h5
+  fix_text_roundtrip_gen T late T.particles (htmlRep T) (tblOK_plain h).1 hk hamp s
+
+/-- **Every** string written with `substitute_html5`, quoted, is read back as an attribute value as the original —
+    including the both-quotes case (`"` ↦ `&quot;`). -/
+theorem html5_attr_roundtrip (T : Tbl) (h : TblOK T = true) (h5 : Html5FixOK T = true) (s : PStr) :
+    readAttr T (quoteAttr (substHtml5 T s)) = some s := by
+  obtain ⟨hk, h34, _, hampu, hq1, hleg, hall⟩ := html5FixOK_spec h5
+  have hR := (tblOK_plain h).1
+  rw [quote_read]
+  unfold quoteBody
+  split
+  · unfold substHtml5 substHtml5With
+    rw [replaceDq_reSub hR h34,
+      fix_attr_roundtrip_gen T _ _ (repOK_quot hR h34 hq1 (tblOK_quot h)) (keysOK_quot hk) hampu hleg hall s]
+  · unfold substHtml5 substHtml5With
+    rw [fix_attr_roundtrip_gen T _ _ hR hk hampu hleg hall s]
+
+example : readText BS.Gen.C09.htmlTable false 0 (substHtml5 BS.Gen.C09.htmlTable (ofS "&lt x &#65 &a-b; &#x &foo bar")) =
+    ofS "&lt x &#65 &a-b; &#x &foo bar" := html5_text_roundtrip _ tblOK_live html5FixOK_live _ _
+example : readAttr BS.Gen.C09.htmlTable (quoteAttr (substHtml5 BS.Gen.C09.htmlTable (ofS "&ltx \"'&notit;"))) =
+    some (ofS "&ltx \"'&notit;") := html5_attr_roundtrip _ tblOK_live html5FixOK_live _
+/-- what the repair writes for the four shapes, and what it still leaves alone -/
+example : substHtml5 BS.Gen.C09.htmlTable (ofS "&lt x") = ofS "&amp;lt x" ∧
+    substHtml5 BS.Gen.C09.htmlTable (ofS "&#65 x") = ofS "&amp;#65 x" ∧
+    substHtml5 BS.Gen.C09.htmlTable (ofS "&a-b;") = ofS "&amp;a-b;" ∧
+    substHtml5 BS.Gen.C09.htmlTable (ofS "&#x") = ofS "&amp;#x" ∧
+    substHtml5 BS.Gen.C09.htmlTable (ofS "&lol & &y=2&1") = ofS "&lol & &y=2&1" := by
+  decide +kernel
+
+/-! ### 4.13.0 as shipped (`substHtml5Old`) -/
+
+/-- What the partial round trip of the old function needs of the tables. -/
+theorem html5OK_live : Html5OK BS.Gen.C09.htmlTable = true := by decide +kernel
+
+/-- FULL STATEMENT (false, see the refutations): `∀ s, readText T late 0 (substHtml5Old T s) = s`.
+    Proved: for every string whose ampersands are either escaped by the old first pass or followed by something other
+    than an ASCII letter or `#`. Missing for an exact domain: a bare `&` before an *unknown* name without `;`
+    (`&foo bar`) also round-trips as text. -/
+theorem html5_old_roundtrip_partial (T : Tbl) (h : TblOK T = true) (h5 : Html5OK T = true) (late : Bool) (s : PStr)
+    (hs : noBareRefStart T s = true) : readText T late 0 (substHtml5Old T s) = s :=
   html5_text_roundtrip_gen T late (tblOK_plain h).1 h5 s hs
 
-example : readText BS.Gen.htmlTable false 0 (substHtml5 BS.Gen.htmlTable (ofS "&lt;<& &&#60;a&;")) = ofS "&lt;<& &&#60;a&;" :=
-  html5_roundtrip_partial _ tblOK_live html5OK_live _ _ (by decide +kernel)
+example : readText BS.Gen.C09.htmlTable false 0 (substHtml5Old BS.Gen.C09.htmlTable (ofS "&lt;<& &&#60;a&;")) = ofS "&lt;<& &&#60;a&;" :=
+  html5_old_roundtrip_partial _ tblOK_live html5OK_live _ _ (by decide +kernel)
 
-/-- The hypothesis is decidable and excludes exactly the shapes of the refutations below. -/
-example : noBareRefStart BS.Gen.htmlTable (ofS "&lt x") = false ∧ noBareRefStart BS.Gen.htmlTable (ofS "&#x") = false ∧
-    noBareRefStart BS.Gen.htmlTable (ofS "&lt; x") = true := by decide +kernel
-
-/-- For strings without an ampersand: the same through quoting and the attribute reader. -/
-theorem html5_attr_roundtrip_partial (T : Tbl) (h : TblOK T = true) (s : PStr) (hs : 38 ∉ s) :
-    readAttr T (quoteAttr (substHtml5 T s)) = some s := by
-  have := html_attr_roundtrip_noamp T T.particles (htmlRep T) (tblOK_plain h).1 (tblOK_quot h) s hs
-  rw [quote_read]
-  unfold quoteBody substHtml5 substHtml5With
-  rw [escapeEntities_noamp T 0 s hs]
-  split <;> simp [this.1, this.2]
-
-example : readAttr BS.Gen.htmlTable (quoteAttr (substHtml5 BS.Gen.htmlTable [60, 8807, 824, 34, 39])) =
-    some [60, 8807, 824, 34, 39] := html5_attr_roundtrip_partial _ tblOK_live _ (by decide)
-
-/-- Refutation 1 (`C09-html5-bare-legacy-ref`): `&lt x` is written unchanged and read back as `< x`, both as text and
-    as an attribute value. -/
-theorem html5_not_reversible_legacy_ref :
-    substHtml5 BS.Gen.htmlTable (ofS "&lt x") = ofS "&lt x" ∧
-    readText BS.Gen.htmlTable false 0 (substHtml5 BS.Gen.htmlTable (ofS "&lt x")) = ofS "< x" ∧
-    readAttr BS.Gen.htmlTable (quoteAttr (substHtml5 BS.Gen.htmlTable (ofS "&lt x"))) = some (ofS "< x") := by
+/-- Refutation 1 (finding `C09-html5-bare-legacy-ref`): the old function writes `&lt x` unchanged and it is read back as
+    `< x`, both as text and as an attribute value. -/
+theorem html5_old_not_reversible_legacy_ref :
+    substHtml5Old BS.Gen.C09.htmlTable (ofS "&lt x") = ofS "&lt x" ∧
+    readText BS.Gen.C09.htmlTable false 0 (substHtml5Old BS.Gen.C09.htmlTable (ofS "&lt x")) = ofS "< x" ∧
+    readAttr BS.Gen.C09.htmlTable (quoteAttr (substHtml5Old BS.Gen.C09.htmlTable (ofS "&lt x"))) = some (ofS "< x") := by
   decide +kernel
 
 /-- Refutation 2 (`C09-html5-bare-numeric-ref`): `&#65 x` is read back as `A x`. -/
-theorem html5_not_reversible_numeric_ref :
-    readText BS.Gen.htmlTable false 0 (substHtml5 BS.Gen.htmlTable (ofS "&#65 x")) = ofS "A x" ∧
-    readAttr BS.Gen.htmlTable (quoteAttr (substHtml5 BS.Gen.htmlTable (ofS "&#65 x"))) = some (ofS "A x") := by
+theorem html5_old_not_reversible_numeric_ref :
+    readText BS.Gen.C09.htmlTable false 0 (substHtml5Old BS.Gen.C09.htmlTable (ofS "&#65 x")) = ofS "A x" ∧
+    readAttr BS.Gen.C09.htmlTable (quoteAttr (substHtml5Old BS.Gen.C09.htmlTable (ofS "&#65 x"))) = some (ofS "A x") := by
   decide +kernel
 
 /-- Refutation 3 (`C09-html5-unknown-ref-semicolon-dropped`): `&a-b;` is read back, as text, as `&a-b`. -/
-theorem html5_not_reversible_semicolon_dropped :
-    readText BS.Gen.htmlTable false 0 (substHtml5 BS.Gen.htmlTable (ofS "&a-b;")) = ofS "&a-b" := by
+theorem html5_old_not_reversible_semicolon_dropped :
+    readText BS.Gen.C09.htmlTable false 0 (substHtml5Old BS.Gen.C09.htmlTable (ofS "&a-b;")) = ofS "&a-b" := by
   decide +kernel
 
 /-- Refutation 4 (`C09-html5-amp-hash-runaway`): after `&#x` the tokenizer takes the rest of the document for text. -/
-theorem html5_not_reversible_runaway :
-    readText BS.Gen.htmlTable false 0 (substHtml5 BS.Gen.htmlTable (ofS "&#x")) = ofS "&#x" ++ [RUNAWAY] := by
+theorem html5_old_not_reversible_runaway :
+    readText BS.Gen.C09.htmlTable false 0 (substHtml5Old BS.Gen.C09.htmlTable (ofS "&#x")) = ofS "&#x" ++ [RUNAWAY] := by
   decide +kernel
 
 /-! ## the registered formatters -/
 
-/-- `Formatter.substitute` / `attribute_value` of a registered formatter whose function is `substitute_xml` (code 1) or
-    `substitute_html` (code 2), outside `cdata_containing_tags`: the text read back is the original. -/
+/-- The only strings `Formatter.substitute` leaves alone are those whose parent is one of the formatter's
+    `cdata_containing_tags`; the shipped configuration names exactly `script` and `style` for HTML and nothing for XML:
+    `HTML_DEFAULTS`, a `Formatter` built with the option left at `None` (both languages), and every registered formatter. -/
+theorem cdata_defaults_live :
+    BS.Gen.C09.htmlDefaultCdata = [ofS "script", ofS "style"] ∧
+    BS.Gen.C09.htmlFormatterCdata = [ofS "script", ofS "style"] ∧ BS.Gen.C09.xmlFormatterCdata = [] ∧
+    BS.Gen.C09.htmlRegistry.all (fun e => e.cdata == [ofS "script", ofS "style"]) = true ∧
+    BS.Gen.C09.xmlRegistry.all (fun e => e.cdata == []) = true := by decide
+
+/-- A string whose parent is one of the configured `cdata_containing_tags` is returned untouched. -/
+theorem substitute_exempt (X : List (Nat × PStr)) (T : Tbl) (e : RegEntry) (t s : PStr) (h : t ∈ e.cdata) :
+    formatterSubstitute T X e (some t) s = s := by
+  unfold formatterSubstitute
+  split
+  · rfl
+  · simp [h]
+
+/-- Any other parent makes no difference: the string is treated like a plain `str` (an attribute value), i.e. the
+    formatter's function is applied. -/
+theorem substitute_not_exempt (X : List (Nat × PStr)) (T : Tbl) (e : RegEntry) (t s : PStr) (h : t ∉ e.cdata) :
+    formatterSubstitute T X e (some t) s = formatterSubstitute T X e none s := by
+  unfold formatterSubstitute
+  split
+  · rfl
+  · simp [h]
+
+/-- `cdata_containing_tags`: an explicit value is what the formatter uses — whatever it is; `None` means the HTML
+    defaults for HTML and no tag for XML. -/
+theorem cdata_option (d : List PStr) (xml : Bool) (fn : Nat) (v : List PStr) :
+    (mkFormatter d xml fn (some v)).cdata = v ∧ (mkFormatter d false fn none).cdata = d ∧
+      (mkFormatter d true fn none).cdata = [] := ⟨rfl, rfl, rfl⟩
+
+/-- With an explicitly empty `cdata_containing_tags` every string is substituted, `<script>`/`<style>` content included. -/
+theorem empty_cdata_substitutes_everything (X : List (Nat × PStr)) (T : Tbl) (d : List PStr) (xml : Bool) (fn : Nat)
+    (p : Option PStr) (s : PStr) :
+    formatterSubstitute T X (mkFormatter d xml fn (some [])) p s =
+      formatterSubstitute T X (mkFormatter d xml fn (some [])) none s := by
+  cases p with
+  | none => rfl
+  | some t => exact substitute_not_exempt X T _ t s (by simp [mkFormatter, defaultCdata])
+
+example : formatterSubstitute BS.Gen.C09.htmlTable BS.Gen.C09.xmlTable
+    (mkFormatter BS.Gen.C09.htmlDefaultCdata false 1 (some [])) (some (ofS "script")) (ofS "a<b") = ofS "a&lt;b" := by
+  decide +kernel
+example : formatterSubstitute BS.Gen.C09.htmlTable BS.Gen.C09.xmlTable
+    (mkFormatter BS.Gen.C09.htmlDefaultCdata false 1 none) (some (ofS "script")) (ofS "a<b") = ofS "a<b" := by
+  decide +kernel
+example : formatterSubstitute BS.Gen.C09.htmlTable BS.Gen.C09.xmlTable
+    (mkFormatter BS.Gen.C09.htmlDefaultCdata false 1 none) (some (ofS "textarea")) (ofS "a<b") = ofS "a&lt;b" := by
+  decide +kernel
+
+/-- `Formatter.substitute` / `attribute_value` of a formatter whose function is `substitute_xml` (code 1),
+    `substitute_html` (code 2) or `substitute_html5` (code 3), for a plain `str` and for a string under **any** parent that is
+    not one of the formatter's `cdata_containing_tags`: the text read back is the original. -/
 theorem formatter_text_roundtrip (X : List (Nat × PStr)) (T : Tbl) (hx : XmlOK X T = true) (h : TblOK T = true)
-    (e : RegEntry) (he : e.fn = 1 ∨ e.fn = 2) (late : Bool) (s : PStr) :
-    readText T late 0 (formatterSubstitute T X e none s) = s := by
-  rcases he with he | he <;> simp only [formatterSubstitute, he, applyFn] <;> simp
-  · exact xml_text_roundtrip X T hx late s
-  · exact html_text_roundtrip T h late s
+    (h5 : Html5FixOK T = true) (e : RegEntry) (he : e.fn = 1 ∨ e.fn = 2 ∨ e.fn = 3) (p : Option PStr)
+    (hp : ∀ t, p = some t → t ∉ e.cdata) (late : Bool) (s : PStr) :
+    readText T late 0 (formatterSubstitute T X e p s) = s := by
+  have base : readText T late 0 (formatterSubstitute T X e none s) = s := by
+    rcases he with he | he | he <;> simp only [formatterSubstitute, he, applyFn] <;> simp
+    · exact xml_text_roundtrip X T hx late s
+    · exact html_text_roundtrip T h late s
+    · exact html5_text_roundtrip T h h5 late s
+  cases p with
+  | none => exact base
+  | some t => rw [substitute_not_exempt X T e t s (hp t rfl)]; exact base
+
+/-- The same for attribute values: substituted by the formatter, quoted, read back. -/
+theorem formatter_attr_roundtrip (X : List (Nat × PStr)) (T : Tbl) (hx : XmlOK X T = true) (h : TblOK T = true)
+    (h5 : Html5FixOK T = true) (e : RegEntry) (he : e.fn = 1 ∨ e.fn = 2 ∨ e.fn = 3) (s : PStr) :
+    readAttr T (quoteAttr (formatterSubstitute T X e none s)) = some s := by
+  rcases he with he | he | he <;> simp only [formatterSubstitute, he, applyFn] <;> simp
+  · exact xml_attr_roundtrip X T hx h s
+  · exact html_attr_roundtrip T h s
+  · exact html5_attr_roundtrip T h h5 s
+
+example : ∃ e ∈ BS.Gen.C09.htmlRegistry, e.fn = 3 ∧ ofS "textarea" ∉ e.cdata := by decide
 
 end BS.Props.C09
